@@ -26,11 +26,13 @@ impl<'a, K: FromStr> KeyValue<'a, K> {
     /// assert_eq!(kv.value, "9.3 // Some comment");
     /// ```
     pub fn parse(s: &'a str) -> Result<Self, K::Err> {
-        let mut split = s.split(':').map(str::trim);
+        // Only the first colon separates key and value, e.g. the title in
+        // `Title:Re:Zero` should be `Re:Zero`.
+        let (key, value) = s.split_once(':').unwrap_or((s, ""));
 
         Ok(Self {
-            key: split.next().unwrap_or(s.trim()).parse()?,
-            value: split.next().unwrap_or_default(),
+            key: key.trim().parse()?,
+            value: value.trim(),
         })
     }
 }
